@@ -260,4 +260,7 @@ def obligations():
     for o in C16.obligations():
         if o.name == "C16.wrapper.b":
             obs.append(Obligation("C11.cache.b", o.fn, kind=o.kind, bound=o.bound, functions=o.functions, stubs=o.stubs, doc="CACHE (shared with C16)"))
+        if o.name == "C16.history.b":
+            obs.append(Obligation("C11.history.b", o.fn, kind=o.kind, bound=o.bound, functions=o.functions, stubs=o.stubs, max_paths=o.max_paths,
+                                  doc="HISTORY of load / target calls on one wrapper (shared with C16)"))
     return obs
